@@ -56,3 +56,69 @@ def correspond_pairs(ctx, impl, model, family, triples, classify=None, nontrivia
         else:
             ctx.violations.append("(not written)")
     return rows
+
+
+# ---------------------------------------------------------------- resolver worlds (harness/src/c26.rs)
+def w_str(x):
+    return "h" + x.encode("utf-8").hex() if x else "e"
+
+
+def beh_leaves(b, acc):
+    if isinstance(b, tuple) and b[0] == "leaf":
+        acc.add(b[1])
+    elif isinstance(b, tuple) and b[0] == "list":
+        for x in b[1]:
+            beh_leaves(x, acc)
+
+
+def beh_text(b, leaf):
+    """leaf: function JSON text -> encoding of the leaf (hex of the text for the harness, compact for the model)"""
+    if b == "err":
+        return "Re"
+    if b == "skip":
+        return "Rs"
+    if b == "echo":
+        return "Rg"
+    if b[0] == "leaf":
+        return "Rl(%s)" % leaf(b[1])
+    if b[0] == "obj":
+        return "Ro(n%d,%s)" % (b[1], w_str(b[2]))
+    if b[0] == "list":
+        return "Ra([%s])" % ";".join(beh_text(x, leaf) for x in b[1])
+    raise ValueError(b)
+
+
+def world_text(w, leaf):
+    return "[" + ";".join("W(n%d,%s,%s)" % (o, w_str(f), beh_text(b, leaf)) for (o, f, b) in w) + "]"
+
+
+def world_leaves(w):
+    acc = set()
+    for _, _, b in w:
+        beh_leaves(b, acc)
+    return acc
+
+
+def exec_triples(impl, cases, valid_family="exec_sync", extra=None):
+    """cases: (schema, doc, vars json text, world[, extra fields]).  Returns (triples, skipped).
+    First stage: schema/AST/JSON dumps from the real crates; invalid schema/document pairs are dropped."""
+    pairs = sorted({(c[0], c[1]) for c in cases})
+    valid = run_family(impl, "coerce_vars", [f"{hexs(s)} {hexs(d)} {hexs('{}')}" for s, d in pairs])
+    ok_pair = {p for p, o in zip(pairs, valid) if not o.startswith("invalid")}
+    sd = dump_all(impl, "schema_dump", [s for s, _ in ok_pair], prefix="u ")
+    dd = dump_all(impl, "ast_dump", [d for _, d in ok_pair])
+    jtexts = {c[2] for c in cases}
+    for c in cases:
+        jtexts |= world_leaves(c[3])
+    jd = dump_all(impl, "json_dump", jtexts)
+    triples, skipped = [], 0
+    for c in cases:
+        s, d, v, w = c[:4]
+        tail = (" " + " ".join(c[4:])) if len(c) > 4 else ""
+        if (s, d) not in ok_pair or sd[s] is None or dd[d] is None or jd[v] is None:
+            skipped += 1
+            continue
+        ic = f"{hexs(s)} {hexs(d)} {hexs(v)} {world_text(w, lambda t: w_str(t))}{tail}"
+        mc = f"{sd[s]} {dd[d]} {jd[v]} {world_text(w, lambda t: jd[t])}{tail}"
+        triples.append((ic, mc, f"{s!r} {d!r} {v} world={w!r}{tail}"))
+    return triples, skipped, len(pairs) - len(ok_pair)
